@@ -169,3 +169,15 @@ TABLE['C12'] = {
     'level_text': 'Partial: deductive proof of __eq__/__hash__ agreement and of the to_json shape; all algebraic laws (normal form, containment, separator agnosticism, parent/append, relpath/append, JSON inverse, string = join, commonprefix/uniquetrees) are checked as runtime contracts on the real classes up to a stated bound, for both platform flavours. Not a proof of the laws.',
     'level_note': 'Bounded stand-in for the library-dependent laws (labelled bounded, not counted as proved); proof only for three small kernels.',
 }
+
+TABLE['C07'] = {
+    'modules': ['contracts.depfile'],
+    'level': 'other',
+    'explanation': 'real compilers and edit histories cannot be put under contract; what is decided: (proof) CcBaseCompiler._call emits -MMD -MF <depfile> whenever a depfile is requested; (bounded, real function) depfixer.emit_deps turns every well-formed gcc depfile text up to the stated bound into exactly one "dep:" rule per dependency, spelled as given -- the mechanism that keeps a build going after a header is deleted',
+    'assumptions': ['the gcc depfile shape is the grammar stated in contracts/depfile.py::DepfixerReference (written from the gcc documentation of -MMD output)'],
+    'trusted_base': ['PyVC (pyvc/*.py)', 'z3 5.1.0'],
+    'not_covered': ['behaviour of the real compilers and of make/ninja on the generated rules', 'optional include of per-object depfiles (make_compile), ninja deps=gcc', 'clean rules', 'all edit histories'],
+    'level_text': 'Partial: one deductive kernel (depfile flags) and a bounded exhaustive run of the depfixer on the real function; the incremental-build behaviour itself is outside this family (needs real toolchains and histories).',
+    'level_note': 'Mostly bounded; only CompilerCall is a proof.',
+}
+TABLE['C04']['modules'].append('contracts.depfile')
